@@ -324,8 +324,151 @@ var regressions = []struct {
 	// itself; root index 0.  brigodier's Node.AddChild merges same-named children recursively: unbounded recursion,
 	// `fatal error: stack overflow`.
 	{"packet.AvailableCommands", []byte{3, 0x00, 2, 1, 2, 0x01, 1, 1, 1, 'a', 0x01, 1, 2, 1, 'a', 0}},
+	// AvailableCommands: literal "a" -> [2], literal "a" -> [root, itself]: the graph builder spun forever
+	{"packet.AvailableCommands", []byte{3, 0x00, 2, 1, 2, 0x01, 1, 2, 1, 'a', 0x01, 2, 0, 2, 1, 'a', 0}},
 	// TagsUpdate: 2^31-1 tags claimed in 5 bytes (uncapped make(map, n))
 	{"config.TagsUpdate", []byte{0xff, 0xff, 0xff, 0xff, 0x07}},
+}
+
+// wire-level command graphs (AvailableCommands bodies) -----------------------------------------------------
+
+type wnode struct {
+	flags    byte
+	children []int
+	redirect int
+	name     string
+	suggest  bool
+}
+
+func encodeGraph(nodes []wnode, root int, pv int) []byte {
+	var b bytes.Buffer
+	_ = util.WriteVarInt(&b, len(nodes))
+	for _, n := range nodes {
+		b.WriteByte(n.flags)
+		_ = util.WriteVarInt(&b, len(n.children))
+		for _, c := range n.children {
+			_ = util.WriteVarInt(&b, c)
+		}
+		if n.flags&0x08 != 0 {
+			_ = util.WriteVarInt(&b, n.redirect)
+		}
+		switch n.flags & 0x03 {
+		case 1:
+			_ = util.WriteString(&b, n.name)
+		case 2:
+			_ = util.WriteString(&b, n.name)
+			if pv >= 759 { // 1.19+: numeric parser ids, 0 = brigadier:bool
+				_ = util.WriteVarInt(&b, 0)
+			} else {
+				_ = util.WriteString(&b, "brigadier:bool")
+			}
+			if n.flags&0x10 != 0 {
+				_ = util.WriteString(&b, "minecraft:ask_server")
+			}
+		}
+	}
+	_ = util.WriteVarInt(&b, root)
+	return b.Bytes()
+}
+
+// smallGraphs: every graph of a root with children [1,2] and two literals whose child lists range over all subsets of
+// {0,1,2} — self loops, mutual cycles, forward and backward references — with equal or different names.
+func smallGraphs(pv int) [][]byte {
+	var out [][]byte
+	subsets := func(m int) []int {
+		var cs []int
+		for i := 0; i < 3; i++ {
+			if m&(1<<i) != 0 {
+				cs = append(cs, i)
+			}
+		}
+		return cs
+	}
+	for _, names := range [][2]string{{"a", "a"}, {"a", "b"}} {
+		for m1 := 0; m1 < 8; m1++ {
+			for m2 := 0; m2 < 8; m2++ {
+				out = append(out, encodeGraph([]wnode{
+					{flags: 0, children: []int{1, 2}},
+					{flags: 1, children: subsets(m1), name: names[0]},
+					{flags: 1, children: subsets(m2), name: names[1]},
+				}, 0, pv))
+			}
+		}
+	}
+	return out
+}
+
+// randomGraph: cycles, self loops, duplicate sibling names, forward references, redirects (also cyclic), several
+// roots, out-of-range indices.
+func randomGraph(r *hx.Rng, pv int) []byte {
+	n := 1 + r.Intn(9)
+	names := []string{"a", "a", "b", "tp", "teleport", "", "zzz"}
+	idx := func(i int) int {
+		switch r.Intn(10) {
+		case 0:
+			return i // self
+		case 1:
+			return i + 1 // forward (possibly out of range)
+		case 2:
+			return hx.Pick(r, []int{-1, n, n + 5, 1 << 20})
+		default:
+			return r.Intn(n)
+		}
+	}
+	nodes := make([]wnode, n)
+	for i := range nodes {
+		typ := byte(1)
+		switch {
+		case i == 0 && !r.Chance(1, 8):
+			typ = 0
+		case r.Chance(1, 5):
+			typ = 2
+		case r.Chance(1, 12):
+			typ = 0
+		case r.Chance(1, 40):
+			typ = 3
+		}
+		w := wnode{flags: typ, name: hx.Pick(r, names)}
+		if r.Bool() {
+			w.flags |= 0x04
+		}
+		if r.Chance(1, 4) {
+			w.flags |= 0x08
+			w.redirect = idx(i)
+		}
+		if typ == 2 && r.Chance(1, 3) {
+			w.flags |= 0x10
+		}
+		if r.Chance(1, 8) {
+			w.flags |= 0x20
+		}
+		for k, m := 0, r.Intn(4); k < m; k++ {
+			w.children = append(w.children, idx(i))
+		}
+		if r.Chance(1, 10) && len(w.children) > 0 { // the same child twice
+			w.children = append(w.children, w.children[0])
+		}
+		nodes[i] = w
+	}
+	root := 0
+	if r.Chance(1, 6) {
+		root = idx(0)
+	}
+	return encodeGraph(nodes, root, pv)
+}
+
+// redirectChain: n literals, literal i redirects to literal i+1 (a node can only be built after its redirect target).
+func redirectChain(n int, pv int) []byte {
+	nodes := make([]wnode, n)
+	nodes[0] = wnode{flags: 0, children: []int{1}}
+	for i := 1; i < n; i++ {
+		nodes[i] = wnode{flags: 1, name: "a"}
+		if i+1 < n {
+			nodes[i].flags |= 0x08
+			nodes[i].redirect = i + 1
+		}
+	}
+	return encodeGraph(nodes, 0, pv)
 }
 
 func buildCases(run *hx.Run, entries []pk.Entry) []tcase {
@@ -448,6 +591,15 @@ func buildCases(run *hx.Run, entries []pk.Entry) []tcase {
 			}
 		}
 		if e.Name == "packet.AvailableCommands" {
+			for k, m := 0, run.Scale(24, 120); k < m; k++ {
+				addX(idx, "command-graph", randomGraph(r, int(e.Proto)))
+			}
+			if gk := fmt.Sprintf("graphs/%v", int(e.Proto) >= 759); !bigDone[gk] {
+				bigDone[gk] = true
+				for _, g := range smallGraphs(int(e.Proto)) {
+					addX(idx, "command-graph-small", g)
+				}
+			}
 			key := "cmd"
 			if run.Thorough() {
 				key = fmt.Sprintf("cmd/%d", int(e.Proto)/100)
@@ -455,6 +607,7 @@ func buildCases(run *hx.Run, entries []pk.Entry) []tcase {
 			if !bigDone[key] {
 				bigDone[key] = true
 				addX(idx, "command-chain", commandChain(run.Scale(60000, 100000)))
+				addX(idx, "command-redirect-chain", redirectChain(run.Scale(60000, 100000), int(e.Proto)))
 			}
 		}
 		// large bodies (raw remainder packets, strings): a few per run
